@@ -1,6 +1,6 @@
-\* thorough 2: every feature (one special pool) x all weight vectors x six pod archetypes x both policies x MaxInstanceTypes 1 / 2
-CONSTANTS WeightVecs = {1, 2, 3, 4, 5, 6, 7, 8, 9, 10, 11, 12}  FeatDiag = TRUE  NPods = 2  PodArchs = {1, 2, 3, 5, 6, 7, 10}
+\* thorough 2: every feature (one special pool) x four weight vectors x five pod archetypes (incl. preference and volume alternatives) x MaxInstanceTypes 1 / 2
+CONSTANTS WeightVecs = {1, 6, 7, 12}  FeatDiag = TRUE  NPods = 2  PodArchs = {1, 2, 3, 7, 10}
 CONSTANTS Feats = {"plain", "taint", "prefer", "limit", "limit16", "zoneA", "teamX", "min2", "archMin2", "notReady", "startup"}
-CONSTANTS Catalogs = {2}  DaemonSets = {2}  MaxTypesSet = {1, 2}  Policies = {"Strict", "BestEffort"}  Weak = ""
+CONSTANTS Catalogs = {2}  DaemonSets = {2}  MaxTypesSet = {1, 2}  Policies = {"Strict"}  Weak = ""
 SPECIFICATION Spec
 INVARIANTS Inv_C19_HighestWeightFeasible Inv_C19_CheapestPrefix Inv_C13_TypesSubsetMinValues Inv_C13_Requests Inv_C13_Template
